@@ -100,4 +100,136 @@ example : Src.tbutils.ParsedException.to_string
     = "Traceback (most recent call last):\n  File \"a.py\", line 3, in f\n    x = 1\n  File \"b.py\", line 7, in g\nValueError: bad".toList := by
   decide
 
+/-! ## _repeated_line_note -/
+
+theorem fmtInt_ofNat (n : Nat) : fmtInt (n : Int) = natStr n := by
+  simp [fmtInt, natStr]
+
+/-- the note with its literals abstracted (no closed string terms: nothing for `whnf` to evaluate) -/
+theorem note_generic (P T S E A B : Str) (hA : T ++ (S ++ E) = A) (hB : T ++ E = B) (c : Int) :
+    (if c ≤ 3 then ([] : Str) else P ++ (fmtInt (c - 3) ++ (T ++ ((if c - 3 > 1 then S else []) ++ E))))
+      = if c.toNat > 3 then P ++ natStr (c.toNat - 3) ++ (if c.toNat - 3 > 1 then A else B) else [] := by
+  by_cases h : c ≤ 3
+  · have h2 : ¬ (c.toNat > 3) := by omega
+    simp [h, h2]
+  · have h2 : c.toNat > 3 := by omega
+    have h3 : c - 3 = ((c.toNat - 3 : Nat) : Int) := by omega
+    rw [if_neg h, if_pos h2, h3, fmtInt_ofNat]
+    by_cases h4 : c.toNat - 3 > 1
+    · have h5 : ((c.toNat - 3 : Nat) : Int) > 1 := by omega
+      rw [if_pos h4, if_pos h5, ← hA]; simp [List.append_assoc]
+    · have h5 : ¬ ((c.toNat - 3 : Nat) : Int) > 1 := by omega
+      rw [if_neg h4, if_neg h5, ← hB]; simp [List.append_assoc]
+
+/-- **tie**: the generated `_repeated_line_note` is the model's `flushRepeat` (a negative count is like 0) -/
+theorem src_repeated_line_note_eq_model (c : Int) :
+    Src.tbutils.repeated_line_note c = flushRepeat c.toNat := by
+  unfold Src.tbutils.repeated_line_note flushRepeat repeatedMsg
+  simp only [lit_empty, List.append_assoc, decide_eq_true_eq]
+  exact note_generic _ _ _ _ _ _ (by decide) (by decide) c
+
+example : Src.tbutils.repeated_line_note 5 = "  [Previous line repeated 2 more times]\n".toList := by decide
+example : Src.tbutils.repeated_line_note 4 = "  [Previous line repeated 1 more time]\n".toList := by decide
+
+/-! ## Callpoint.tb_frame_str -/
+
+/-- **tie**: the generated `Callpoint.tb_frame_str` is the model's `tbFrameStr` (`str(self.line)` = the rstripped
+    linecache line, `bool(self.line)` = that string is not empty: `PyRtC16.DLine`) -/
+theorem src_tb_frame_str_eq_model (c : Callpoint) : Src.tbutils.Callpoint.tb_frame_str c = tbFrameStr c := by
+  unfold Src.tbutils.Callpoint.tb_frame_str tbFrameStr cpHead
+  simp only [lit_file, lit_line, lit_in, lit_ind4, lit_nl, DLine.truthy, DLine.str, Callpoint.dline, strStrip, fmtNat,
+    natStr]
+  by_cases h : rstrip c.line = [] <;> simp [h, List.append_assoc]
+
+example : Src.tbutils.Callpoint.tb_frame_str ⟨"a.py".toList, 3, "f".toList, "  x = 1 \n".toList⟩
+    = "  File \"a.py\", line 3, in f\n    x = 1\n".toList := by decide
+
+/-! ## TracebackInfo.get_formatted -/
+
+def siteOf (c : Callpoint) : Str × Nat × Str := (c.path, c.lineno, c.func)
+
+/-- what ONE iteration of the loop of get_formatted does to `(ret, last_site, count)` -/
+def specStep (st : Str × Option (Str × Nat × Str) × Int) (f : Callpoint) : Str × Option (Str × Nat × Str) × Int :=
+  if (some (siteOf f) != st.2.1) = true then
+    (st.1 ++ (Src.tbutils.repeated_line_note st.2.2 ++ tbFrameStr f), some (siteOf f), 1)
+  else (st.1 ++ (if st.2.2 + 1 ≤ 3 then tbFrameStr f else []), st.2.1, st.2.2 + 1)
+
+/-- the model's test "this entry starts a new run" -/
+def isNew (last : Option Callpoint) (f : Callpoint) : Bool :=
+  match last with | none => true | some l => !sameSite l f
+
+theorem bLoop_cons (last : Option Callpoint) (cnt : Nat) (f : Callpoint) (fs : List Callpoint) :
+    bLoop last cnt (f :: fs) =
+      if isNew last f = true then flushRepeat cnt ++ (tbFrameStr f ++ bLoop (some f) 1 fs)
+      else if cnt + 1 ≤ 3 then tbFrameStr f ++ bLoop last (cnt + 1) fs else bLoop last (cnt + 1) fs := by
+  cases last <;> simp [bLoop, isNew]
+
+theorem newSite_iff (last : Option Callpoint) (f : Callpoint) :
+    (some (siteOf f) != last.map siteOf) = isNew last f := by
+  cases last with
+  | none => simp [isNew]
+  | some l =>
+    simp only [Option.map_some, sameSite, siteOf, isNew]
+    by_cases h1 : l.path = f.path <;> by_cases h2 : l.lineno = f.lineno <;> by_cases h3 : l.func = f.func <;>
+      simp [h1, h2, h3, bne, Ne.symm] <;> (intros; simp_all [eq_comm])
+
+theorem foldl_specStep (step : Str × Option (Str × Nat × Str) × Int → Callpoint → Str × Option (Str × Nat × Str) × Int)
+    (hstep : ∀ st f, step st f = specStep st f) :
+    ∀ (fs : List Callpoint) (ret : Str) (last : Option Callpoint) (cnt : Nat),
+      (fs.foldl step (ret, last.map siteOf, (cnt : Int))).1
+        ++ Src.tbutils.repeated_line_note (fs.foldl step (ret, last.map siteOf, (cnt : Int))).2.2
+      = ret ++ bLoop last cnt fs := by
+  intro fs
+  induction fs with
+  | nil => intro ret last cnt; simp [bLoop, src_repeated_line_note_eq_model]
+  | cons f fs ih =>
+    intro ret last cnt
+    rw [List.foldl_cons, hstep, specStep, bLoop_cons]
+    simp only [newSite_iff]
+    cases hn : isNew last f
+    · simp only [if_false, Bool.false_eq_true]
+      have := ih (ret ++ (if (cnt : Int) + 1 ≤ 3 then tbFrameStr f else [])) last (cnt + 1)
+      push_cast at this
+      rw [this]
+      by_cases h3 : cnt + 1 ≤ 3
+      · have : (cnt : Int) + 1 ≤ 3 := by omega
+        simp [h3, this, List.append_assoc]
+      · have : ¬ (cnt : Int) + 1 ≤ 3 := by omega
+        simp [h3, this]
+    · have := ih (ret ++ (Src.tbutils.repeated_line_note cnt ++ tbFrameStr f)) (some f) 1
+      simp only [Option.map_some] at this
+      push_cast at this
+      simp only [if_true]
+      rw [this, src_repeated_line_note_eq_model]
+      simp [List.append_assoc]
+
+theorem lit_headerNL : "Traceback (most recent call last):\n".toList = headerNL := by decide
+
+theorem run_of_step (step : Str × Option (Str × Nat × Str) × Int → Callpoint → Str × Option (Str × Nat × Str) × Int)
+    (hstep : ∀ st f, step st f = specStep st f) (fs : List Callpoint) :
+    (fs.foldl step (headerNL, none, 0)).1 ++ Src.tbutils.repeated_line_note (fs.foldl step (headerNL, none, 0)).2.2
+      = tbInfoFormat fs := by
+  have := foldl_specStep step hstep fs headerNL none 0
+  simpa [tbInfoFormat] using this
+
+/-- **tie**: the generated `TracebackInfo.get_formatted` (header, the run-collapsing loop, the final note) is the
+    model's `tbInfoFormat` -/
+theorem src_get_formatted_eq_model (frames : List Callpoint) :
+    Src.tbutils.TracebackInfo.get_formatted frames = tbInfoFormat frames := by
+  unfold Src.tbutils.TracebackInfo.get_formatted
+  simp only [lit_headerNL]
+  apply run_of_step
+  intro st f
+  obtain ⟨ret, last, cnt⟩ := st
+  simp only [specStep, siteOf, src_tb_frame_str_eq_model]
+  by_cases hn : (some (f.path, f.lineno, f.func) != last) = true <;>
+    by_cases h3 : cnt + 1 ≤ 3 <;> simp [hn, h3, List.append_assoc]
+
+set_option maxRecDepth 100000 in
+example : Src.tbutils.TracebackInfo.get_formatted
+    (List.replicate 5 ⟨"a.py".toList, 3, "f".toList, "x\n".toList⟩)
+    = ("Traceback (most recent call last):\n" ++ "  File \"a.py\", line 3, in f\n    x\n"
+        ++ "  File \"a.py\", line 3, in f\n    x\n" ++ "  File \"a.py\", line 3, in f\n    x\n"
+        ++ "  [Previous line repeated 2 more times]\n").toList := by decide
+
 end C16
